@@ -236,7 +236,7 @@ def fam_tree(seed, i):
         p = parent[x]
         b = rng.choice(["add_child", "add_child", "register_bc", "register_bc2"])
         bucket[x] = b
-        if rng.random() < 0.4:
+        if rng.random() < 0.55:
             c = rng.choice(cl)
             main.append({"op": "clone", "h": f"r_{x}", "nh": f"e_{x}", "to": c})
             handles[c][f"e_{x}"] = "addr"
@@ -260,7 +260,7 @@ def fam_tree(seed, i):
         handles[c][f"h_{c}"] = "addr"
     main.append({"op": "drop", "h": "r_a1"})
     sc["clients"]["main"] = main
-    w = {"send": 6, "call": 3, "yield": 2, "drop": 1.5, "stop": 1.2, "restart": 0.5, "sleep": 0.5, "await": 0.7, "stopped": 0.5, "clone": 0.3}
+    w = {"send": 6, "call": 3, "yield": 2, "drop": 1.5, "stop": 1.8, "halt": 0.7, "restart": 0.8, "sleep": 0.5, "await": 0.7, "stopped": 0.5, "clone": 0.3}
     cnt = [0]
     pend = [e for es in late.values() for e in es]
     for c in cl:
